@@ -54,7 +54,25 @@ def write_imports(scratch, engine, pkgs, man=None, pkgname="main"):
     return p
 
 
+def write_reqdata(scratch, man, tag):
+    """Go file embedding the FileDescriptorProtos that were sent to the plugin (C19 compares the registered descriptors with them)."""
+    if not man or not man.get("requests"):
+        return None
+    p = scratch.path("reqdata_gen_%s.go" % tag)
+    with open(p, "w") as fh:
+        fh.write("package main\n\n// requestFiles maps a proto file name to the serialized FileDescriptorProto handed to the plugin.\nvar requestFiles = map[string]string{\n")
+        for name, path in sorted(man["requests"].items()):
+            with open(path, "rb") as rf:
+                b = rf.read()
+            fh.write("\t%s: \"%s\",\n" % (json.dumps(name), "".join("\\x%02x" % c for c in b)))
+        fh.write("}\n")
+    return p
+
+
 def prepare(ck, prop, spec, scratch, tier):
+    if spec.get("custom") == "c12":
+        import c12
+        return c12.prepare(ck, prop, spec, scratch, tier)
     extra = {}
     needs = list(spec["needs"])
     if spec.get("gen"):
@@ -64,6 +82,8 @@ def prepare(ck, prop, spec, scratch, tier):
         imp = write_imports(scratch, spec["engine"], CHECKED_IN + pkgs, man, pkgname=(spec["engine"] if spec.get("test") else "main"))
         extra[os.path.join(ck.REPO, ZZ, spec["engine"], "imports_gen.go")] = imp
         spec["gen_manifest"] = man
+        if spec.get("reqdata"):
+            extra[os.path.join(ck.REPO, ZZ, spec["engine"], "reqdata_gen.go")] = write_reqdata(scratch, man, spec["engine"])
     if spec.get("mapctl"):
         import mapctl
         try:
